@@ -5,7 +5,7 @@ From Coq Require Import List Ascii String Bool Arith PrimFloat.
 From Verif Require Import Base.Result Base.Str Base.Sexp Base.PyDict Base.Float
   Model.Tokenizer Model.Types Model.Domain Model.NumExpr Model.Problem Model.ProblemObs Model.ProblemExporter
   Spec.Pddl Spec.Grammar Spec.Problem
-  Proofs.C05_Lemmas Proofs.C05_Items Proofs.C05_Parse Proofs.C05_Faithful Proofs.C05_Examples Proofs.C05_Main
+  Proofs.C05_Lemmas Proofs.C05_Items Proofs.C05_Parse Proofs.C05_Faithful Proofs.C05_Repeats Proofs.C05_Examples Proofs.C05_Main
   Proofs.C09_Export Proofs.C09_Round Proofs.C09_Main.
 Import ListNotations.
 Open Scope string_scope.
@@ -43,7 +43,7 @@ Qed.
 
 (* the hypotheses of C09_roundtrip are satisfiable by a non-trivial problem *)
 Example C09_hypotheses_satisfiable :
-  exists sp, read_problem ex_num9 ex_problem = Some sp /\ repr_ok ex_num9 ex_repr9 sp /\ no_repeats sp = true /\
+  exists sp, read_problem ex_num9 ex_problem = Some sp /\ repr_ok ex_num9 ex_repr9 sp /\ safe_repeats sp = true /\
              sp_name sp <> "" /\ List.length (values_of ex_num9 sp) = 5 /\
              exists pb, parse_problem cfg_fixed ex_num9 ex_dom ex_problem = Ok pb.
 Proof.
@@ -65,6 +65,20 @@ Example C09_example_roundtrip :
 Proof.
   eexists. eexists. eexists. split; [vm_compute; reflexivity|]. split; [vm_compute; reflexivity|].
   split; [vm_compute; reflexivity|]. split; [vm_compute; reflexivity|]. vm_compute. repeat split; reflexivity.
+Qed.
+
+(* ... also by a problem whose fluents have repeated arguments (in the form the library prints), and it round-trips *)
+Example C09_repeats_satisfiable :
+  exists sp pb pb', read_problem ex_num9 repeats_problem = Some sp /\ repr_ok ex_num9 ex_repr9 sp /\
+    safe_repeats sp = true /\ no_repeats sp = false /\
+    parse_problem cfg_fixed ex_num9 ex_dom repeats_problem = Ok pb /\
+    parse_problem cfg_fixed ex_num9 ex_dom (export_problem ex_repr9 None "dom" pb) = Ok pb' /\
+    pdump_equiv (dump_problem pb') (dump_problem pb) = true /\ List.length (pd_fluents (dump_problem pb')) = 4.
+Proof.
+  eexists. eexists. eexists. split; [vm_compute; reflexivity|]. split.
+  - intros x Hx. vm_compute in Hx. repeat (destruct Hx as [<-|Hx]; [vm_compute; reflexivity|]). destruct Hx.
+  - split; [vm_compute; reflexivity|]. split; [vm_compute; reflexivity|]. split; [vm_compute; reflexivity|].
+    split; [vm_compute; reflexivity|]. split; vm_compute; reflexivity.
 Qed.
 
 (* empty sections stay empty *)
